@@ -26,7 +26,7 @@ PROPS["C10"] = {
     "undecided": ["failure inside the rollback itself (second fault)", "selective undo of several dependent changes failing part-way"],
 }
 PROPS["C11"] = {
-    "sidecars": ["c11_history.py", "c10_change.py", "c11_leaves.py", "c11_dependencies.py", "c11_dependencies2.py", "c11_history_n.py", "c11_contains.py"],
+    "sidecars": ["c11_history.py", "c10_change.py", "c11_leaves.py", "c11_dependencies.py", "c11_dependencies2.py", "c11_history_n.py", "c11_contains.py", "c11_selective.py"],
     "level": "proof",
     "claim": "Proof level for the list discipline and the inverse laws of plain undo/redo: History.do clears redo, keeps the undo list within the "
              "limit (_remove_extra_items), undo/redo with empty lists are refused without effect (HistoryError exceptional post), plain undo moves exactly "
